@@ -1,8 +1,10 @@
 """C05 - value hashing is total, deterministic and collision-free on supported values."""
+import hashlib
 import json
 import random
 
 import c05_decl as D
+import c05_len as L
 import common as C
 import values as V
 
@@ -126,8 +128,10 @@ def low_class(case, o):
     return f"lowlevel:{o['exc']}"
 
 
-def run_cases(rep, cases, label):
-    """cases: list of {"v":enc,"max":..}.  Compares impl (two hash seeds) with the model; returns impl outcomes."""
+def run_cases(rep, cases, label, texts=None):
+    """cases: list of {"v":enc,"max":..}.  Compares impl (two hash seeds) with the model; returns impl outcomes.
+    texts: a description of each case for the messages (default: the value itself)."""
+    text = dict((id(c), t) for c, t in zip(cases, texts or []))
     out0 = C.run_driver("drive_c05.py", {"cases": cases}, hashseed="0")
     out1 = C.run_driver("drive_c05.py", {"cases": cases}, hashseed="12345")
     exprs = [f"run_hash {mx_coq(c.get('max', 'default'))} {V.to_coq(c['v'])}" for c in cases]
@@ -150,12 +154,84 @@ def run_cases(rep, cases, label):
         ia = impl_str(a)
         if ia != m:
             rep.violation("model-mismatch:" + (ia.split(":")[0] + "-vs-" + m.split(":")[0]),
-                          f"implementation and Coq model disagree on {shown(c['v'])}: impl={ia} model={m}",
+                          f"implementation and Coq model disagree on {text.get(id(c)) or shown(c['v'])}: impl={ia} model={m}",
                           {"case": c, "impl": ia, "model": m, "replay_cmd": "./check C05 --replay <this file>"})
         if a["r"] == "low" and supported(c["v"]):
             rep.violation(low_class(c, a), f"low-level exception {a['exc']} escapes dds_hash on the supported value {shown(c['v'])}",
                           {"case": c, "impl": ia})
     return out0
+
+
+def is_spec(x):
+    """Members of the collision groups: encoded values, or {"spec": ..} for the long values of harness/c05_len.py."""
+    return isinstance(x, dict)
+
+
+def val_of(x):
+    return L.expand(x["spec"]) if is_spec(x) else x
+
+
+def text_of(x):
+    return L.describe(x["spec"]) if is_spec(x) else shown(x)
+
+
+def length_dimension(rep, tier, rng, groups):
+    """Containers and texts of the boundary lengths, their re-groupings and edits (harness/c05_len.py): every one ends as the
+    documented rule says (a signature, or SEQUENCE_TOO_LONG iff some container is longer than hash.max_sequence_size), the same
+    in two processes; the signatures join the collision search (groups); a few go to the Coq model; a few pairs go end to end."""
+    specs, opts, model, pairs = L.enumerate_specs(rng, tier)
+    todo = [(s, "default") for s in specs] + opts
+    payload = {"cases": [{"v": L.expand(s), "max": mx} for (s, mx) in todo]}
+    out0, out1, batch, nb = [], [], [], 0
+    for i, c in enumerate(payload["cases"]):        # batches of bounded size: the values are long
+        batch.append(c)
+        nb += V.size(c["v"])
+        if nb > 400000 or i == len(todo) - 1:
+            out0 += C.run_driver("drive_c05.py", {"cases": batch}, hashseed="0")
+            out1 += C.run_driver("drive_c05.py", {"cases": batch}, hashseed="12345")
+            batch, nb = [], 0
+    kinds, nel = {}, 0
+    for (s, mx), c, a, b in zip(todo, payload["cases"], out0, out1):
+        rep.case(L.skey(s, mx))
+        nel += V.size(c["v"])
+        replay = {"spec": s, "max": mx, "impl": a, "cmd": "harness/drive_c05.py"}
+        if a != b:
+            rep.violation("nondeterministic-across-processes", f"dds_hash differs between two processes with different hash seeds on "
+                          f"{L.describe(s)}", dict(replay, seed12345=b))
+        want = "dds:SEQUENCE_TOO_LONG" if L.too_long(c["v"], L.MAXLEN if mx == "default" else mx) else "ok"
+        got = "ok" if a["r"] == "ok" else impl_str(a)
+        kinds[got] = kinds.get(got, 0) + 1
+        if a["r"] == "low":
+            rep.violation(low_class(c, a), f"low-level exception {a['exc']} escapes dds_hash on {L.describe(s)}", replay)
+        elif got != want:
+            rep.violation(f"length-outcome:{got}-vs-{want}", f"dds_hash ends with {got} (documented: {want}, hash.max_sequence_size="
+                          f"{L.MAXLEN if mx == 'default' else mx}) on {L.describe(s)}", dict(replay, expected=want))
+        if a["r"] == "ok" and mx == "default":
+            cf = ("long", hashlib.sha256(repr(V.canon(c["v"])).encode()).hexdigest())
+            groups.setdefault(a["h"], {}).setdefault(cf, {"spec": s})
+    # the Coq model on a few
+    mcases = [{"v": L.expand(s), "max": mx} for (s, mx) in model]
+    run_cases(rep, mcases, "c05len", texts=[L.describe(s) for (s, _) in model])
+    # end to end
+    pouts = C.run_driver("drive_c05_keep.py", {"pairs": [[L.expand(a), L.expand(b)] for (a, b) in pairs]})
+    for (a, b), o in zip(pairs, pouts):
+        rep.case("keep:" + L.skey(a) + L.skey(b))
+        replay = {"pair_spec": [a, b], "impl": dict((k, (v if len(str(v)) < 200 else str(v)[:200] + "..")) for (k, v) in o.items()),
+                  "cmd": "harness/drive_c05_keep.py"}
+        if o["r"] != "ok":
+            rep.violation("keep-fails-on-hashable-values:" + o["r"], f"dds.keep fails ({o}) on values that dds_hash accepts: "
+                          f"{L.describe(a)} / {L.describe(b)}", replay)
+        elif o["r1"] != o["p1"] or o["r2"] != o["p2"]:
+            rep.violation("stale-result-served:" + L.relation(a, b).split(":", 1)[1],
+                          f"keep(p, f, a) then keep(p, f, b) returned the text of {'a' if o['r2'] == o['p1'] else 'neither a nor b'} for b "
+                          f"(plain execution: f(b)) with a = {L.describe(a)}, b = {L.describe(b)}", replay)
+    by = {}
+    for (s, _) in todo:
+        k = s["kind"] + ("" if not s.get("group") else ":regrouped") + ("" if not s.get("edit") else ":edited")
+        by[k] = by.get(k, 0) + 1
+    return {"lengths": L.LENGTHS, "block_sizes_of_the_regroupings": L.BLOCKS, "values": len(specs), "values_by_shape": by,
+            "option_cases": len(opts), "elements_hashed": nel, "outcome_kind": kinds, "sent_to_the_model": len(model),
+            "keep_pairs": len(pairs)}
 
 
 def run(rep, tier, seed, proof_ok):
@@ -174,7 +250,16 @@ def run(rep, tier, seed, proof_ok):
                 "processes (PYTHONHASHSEED 0 / 12345) and in the Coq model (vm_compute, executable SHA-256); distinct = distinct "
                 "encoded (value, option) case; non-trivial = not a bare unsupported atom; all pairs grouped by signature for collisions; one "
                 "pair per declared group (all pairs in the thorough tier) end to end: keep(p, f, a) then keep(p, f, b) on a local store "
-                "against the plain execution f(b)")
+                "against the plain execution f(b); LENGTH dimension (harness/c05_len.py): lists / tuples / dicts / OrderedDicts / dataclass "
+                "field lists / texts of the boundary lengths 255, 256, 257, 1023, 1024, 1025, 2048, 2049, 4096, 9999, 10000 "
+                "(= hash.max_sequence_size), 10001 over four element families (distinct ints, constant, strings, mixed atoms), with "
+                "their RE-GROUPINGS (the list of the k-element slices for k in the same set and 2, 16; k-ary trees of slices; [x[:p], "
+                "x[p:]]; [x]; x[:p] + [x[p:]]; [x[:p]] + x[p:]: the flat sequence is the flattening / concatenation of each) and EDITS "
+                "at block-boundary positions (one element / key / field name replaced, removed, two elements swapped, rotation), at top "
+                "level and inside a list / dict value / dataclass field, and under hash.max_sequence_size = n-1, n, None: outcome "
+                "against the documented rule (signature, or SEQUENCE_TOO_LONG iff a container is longer than the option) in two "
+                "processes, all signatures in the same all-pairs collision search (no model needed), a few per run in the Coq model, "
+                "a few (sequence, re-grouping) and (sequence, edit) pairs end to end through dds.keep")
     rep.assumptions += [
         "SHA-256 collision resistance (theorems conclude '... or H_collision H')",
         "RecursionError for nesting beyond the interpreter limit is outside the model",
@@ -219,6 +304,8 @@ def run(rep, tier, seed, proof_ok):
             cf = V.canon(c["v"])
             if cf is not None:
                 groups.setdefault(o["h"], {}).setdefault(cf, c["v"])
+    # the length dimension: its own generator (the draws above are unchanged), the same collision groups
+    rep.extra["input_distribution"]["length_dimension"] = length_dimension(rep, tier, random.Random(f"{seed}:length"), groups)
     ncoll = 0
     for h, m in groups.items():
         if len(m) > 1:
@@ -226,10 +313,14 @@ def run(rep, tier, seed, proof_ok):
             for i in range(len(items)):
                 for j in range(i + 1, len(items)):
                     ncoll += 1
-                    cls = collision_key(items[i][1], items[j][1])
+                    x1, x2 = items[i][1], items[j][1]
+                    cls = collision_key(val_of(x1), val_of(x2))
+                    if "UNCLASSIFIED" in cls and is_spec(x1) and is_spec(x2):
+                        cls = L.relation(x1["spec"], x2["spec"])
                     rep.violation(cls, f"two values that differ beyond the documented identifications share signature {h[:12]}..: "
-                                  f"{shown(items[i][1])} / {shown(items[j][1])}",
-                                  {"v1": items[i][1], "v2": items[j][1], "signature": h})
+                                  f"{text_of(x1)} / {text_of(x2)}",
+                                  {("spec1" if is_spec(x1) else "v1"): (x1["spec"] if is_spec(x1) else x1),
+                                   ("spec2" if is_spec(x2) else "v2"): (x2["spec"] if is_spec(x2) else x2), "signature": h})
     rep.extra["collision_search"] = {"signatures": len(groups), "colliding_pairs_beyond_documented": ncoll}
     # declared classes, end to end: the result computed for one value is never served for the other
     sigs = dict((json.dumps(c["v"], sort_keys=True), o["h"]) for c, o in zip(cases[:len(vals)], outs[:len(vals)]) if o["r"] == "ok")
@@ -248,15 +339,29 @@ def run(rep, tier, seed, proof_ok):
 
 def replay(path):
     r = json.load(open(path))["replay"]
+    # the long values of harness/c05_len.py are stored as specs
+    if "pair_spec" in r:
+        r["pair"] = [L.expand(x) for x in r["pair_spec"]]
+    if "spec" in r:
+        v = L.expand(r["spec"])
+        out = C.run_driver("drive_c05.py", {"cases": [{"v": v, "max": r["max"]}]})
+        print(json.dumps({"spec": r["spec"], "value": L.describe(r["spec"]), "max": r["max"], "impl": out, "expected": r.get("expected")}, indent=1))
+        bad = out[0]["r"] == "low" or ("expected" in r and ("ok" if out[0]["r"] == "ok" else impl_str(out[0])) != r["expected"])
+        print("REPRODUCED" if bad else "not reproduced")
+        return 1 if bad else 0
+    for (k, sk) in (("v1", "spec1"), ("v2", "spec2")):
+        if sk in r:
+            print(k, "=", L.describe(r[sk]))
+            r[k] = L.expand(r[sk])
     if "pair" in r:
         out = C.run_driver("drive_c05_keep.py", {"pairs": [r["pair"]]})
-        print(json.dumps({"pair": r["pair"], "impl": out}, indent=1))
+        print(json.dumps({"pair": r.get("pair_spec", r["pair"]), "impl": out}, indent=1)[:4000])
         bad = out[0]["r"] != "ok" or out[0]["r1"] != out[0]["p1"] or out[0]["r2"] != out[0]["p2"]
         print("REPRODUCED" if bad else "not reproduced")
         return 1 if bad else 0
     cases = [r["case"]] if "case" in r else [{"v": r["v1"], "max": "default"}, {"v": r["v2"], "max": "default"}]
     out = C.run_driver("drive_c05.py", {"cases": cases})
-    print(json.dumps({"cases": cases, "impl": out}, indent=1))
+    print(json.dumps({"cases": cases if len(str(cases)) < 4000 else "(long values, see above)", "impl": out}, indent=1))
     if "case" in r:
         bad = out[0]["r"] == "low" or ("model" in r and impl_str(out[0]) != r["model"])
     else:
